@@ -1,6 +1,6 @@
 """C18 — cleaning removes only what ninja built, and all of it (DESIGN 5.18)."""
 from facts import AnalysisBroken
-from model import (dstr, strip, fact_holds, mentions_field, mentions_call, mentions_var,
+from model import (norm_cond, dstr, strip, fact_holds, mentions_field, mentions_call, mentions_var,
                    const_value, walk)
 from rules import (lastname, guarded, calls_to, who_may_call, dominated_by, full_range, loops_over,
                    every_iteration_passes, basename, origins, skip_conditions_exact,
@@ -96,20 +96,44 @@ def run(ctx):
             # dead guard: !n || (!n->in_edge() && n->out_edges().empty())
             bad = None
             alive_kinds = set()
+
+            def dead_test(atom, pol):
+                """kind of a test that says "dead" with this polarity: no producer / no consumers"""
+                if mentions_field(atom, 'Node::in_edge_') and '&&' not in dstr(atom) and '||' not in dstr(atom):
+                    return 'producer' if pol is False else None
+                k = dstr(atom)
+                if 'out_edges' in k and 'empty' in k and '&&' not in k and '||' not in k:
+                    return 'consumers' if pol is True else None
+                return None
             for bid, b in f.blocks.items():
                 for i, s in enumerate(b['succ']):
-                    ef = f.edge_fact(bid, i)
-                    if not ef:
+                    if s is None:
                         continue
-                    a, pol = ef[2], ef[1]
-                    alive = (mentions_field(a, 'Node::in_edge_') and pol is True) or \
-                        ('out_edges' in ef[0] and 'empty' in ef[0] and pol is False)
-                    if alive and s is not None:
-                        alive_kinds.add('producer' if mentions_field(a, 'Node::in_edge_') else 'consumers')
-                        r = f.find_path(None, lambda x: x is e, from_succ=s, init_facts=[(ef[0], ef[1])],
+                    kinds = set()
+                    for k, pol, atom in f.edge_facts(bid, i):
+                        a = strip(atom)
+                        # alive: a single test says "has a producer" / "has consumers" ...
+                        dk = dead_test(atom, not pol)
+                        if dk:
+                            kinds.add(dk)
+                        # ... or the conjunction `no producer && no consumers` (computed as a value) came out false
+                        if isinstance(a, dict) and a.get('k') == 'bin' and a['op'] == '&&' and pol is False:
+                            parts, st = [], [a]
+                            while st:
+                                x = strip(st.pop())
+                                if isinstance(x, dict) and x.get('k') == 'bin' and x['op'] == '&&':
+                                    st += [x['l'], x['r']]
+                                else:
+                                    parts.append(norm_cond(prog, x))
+                            pk = {dead_test(pa, pp) for pa, pp in parts}
+                            if None not in pk:
+                                kinds |= pk
+                    if kinds:
+                        alive_kinds |= kinds
+                        r = f.find_path(None, lambda x: x is e, from_succ=s, init_facts=frozenset((k, p) for k, p, a in f.edge_facts(bid, i)),
                                         is_blocker=lambda x: x['k'] == 'call' and x.get('name') == 'State::LookupNode')
                         if r is not None:
-                            bad = (ef[0], r[0])
+                            bad = (sorted(kinds), r[0])
             ctx.check('C18.V1', alive_kinds == {'producer', 'consumers'}, f.name, 'dead-guard:tests-absent', f.where(e),
                       'whether a log key is dead is decided by looking at the node\'s producer and consumers (tests found: %s)' % sorted(alive_kinds))
             ctx.check('C18.V1', bad is None, f.name, 'dead-guard:weakened', f.where(e),
@@ -202,7 +226,7 @@ def run(ctx):
                   witness=None if r is None else {'blocks': r[0]})
     for name in PUBLIC:
         f = prog.fn(name)
-        lds = list(f.calls('Cleaner::LoadDyndeps'))
+        lds = [x for x in f.calls('Cleaner::LoadDyndeps') if not x.get('args')]        # the load-everything form
         work = [e for e in f.calls() if e.get('name') in ('Cleaner::Remove', 'Cleaner::DoCleanTarget',
                                                            'Cleaner::DoCleanRule', 'Cleaner::RemoveEdgeFiles')]
         ok = bool(lds) and bool(work) and all(f.dominates_ev(lds[0], w) for w in work)
@@ -211,11 +235,11 @@ def run(ctx):
     for name in ('Cleaner::CleanTarget', 'Cleaner::CleanRule'):
         for f in prog.fns(name):
             if any(True for _ in f.calls('Cleaner::DoCleanTarget')) or any(True for _ in f.calls('Cleaner::DoCleanRule')):
-                lds = list(f.calls('Cleaner::LoadDyndeps'))
+                lds = [x for x in f.calls('Cleaner::LoadDyndeps') if not x.get('args')]
                 work = [e for e in f.calls() if e.get('name') in ('Cleaner::DoCleanTarget', 'Cleaner::DoCleanRule')]
                 ctx.check('C18.O1', bool(lds) and all(f.dominates_ev(lds[0], w) for w in work), f.name,
                           'entry:no-LoadDyndeps-first', f.loc, '%s loads dyndep files first' % f.name)
-    ld = prog.fn('Cleaner::LoadDyndeps')
+    ld = prog.fn('Cleaner::LoadDyndeps', nparams=0)
     full_range(ctx, 'C18.O1', ld, 'State::edges_', 'dyndep files of all statements are considered')
     for l in loops_over(ld, 'State::edges_'):
         skip_conditions_exact(
